@@ -47,6 +47,11 @@ ASSUMPTIONS = [
     "subject) what matters to close() is covered by any-state theorems and the correspondence: clients holding an "
     "incomplete frame open (a thread / pool worker blocked in a read), clients inside the authenticator, blocking and "
     "raising disconnect hooks",
+    "inside one operation of the server the harness reaches only through gates it can hold open from outside: a blocking "
+    "on_disconnect, and (scenario `log-gate`, judged by the direct oracle on every run) a slow log sink passed through the "
+    "public `logger=` parameter that holds the pool's accept thread at its 'Created connection' record while the client's "
+    "first request is already on the wire; a newcomer for which no thread / child can be started (`f<k>`: modelled, theorem "
+    "failed_spawn_leaves_nothing) and a server process holding ~1100 descriptors (option \"hifd\") are run on the real servers",
     "quiescent states only: a close() that races with accept() between `accept` and `clients.add`, or with a serving "
     "thread between closing its socket and discarding it (other than through the gated blocking hook), is sampled by the "
     "runtime, not enumerated",
@@ -166,7 +171,78 @@ def oracle_only_cases():
         case_dict("pool", "tcp", False, 2, "c1:g m1 c2:g p2 c3:g a1 X h1".split()),
         # close() itself calls the blocking on_disconnect of a client that is still connected
         case_dict("pool", "tcp", False, 2, "c1:g m1 c2:g p2 c3:g X h1".split()),
+        # the accept thread of a pool held in a slow log sink while it admits a client whose first request is already there
+        dict(kind="scenario", scenario="log-gate", server="pool", transport="tcp", auth=False, nb=2, ops=[]),
+        dict(kind="scenario", scenario="log-gate", server="pool", transport="unix", auth=False, nb=2, ops=[]),
     ]
+
+
+def scenario_case(case, ceiling=servers.CEILING):
+    """scenarios that need the harness inside one operation of the server (not expressible as a sequence of quiescent states)"""
+    if case.get("scenario") == "log-gate":
+        return log_gate_scenario(case["transport"], ceiling)
+    raise ValueError("unknown scenario %r" % (case,))
+
+
+def log_gate_scenario(transport, ceiling):
+    """ThreadPoolServer with a slow log sink (the public `logger=` parameter, DEBUG level): the accept thread is held at its
+    "Created connection" record while it admits client 2; client 2's first request is already on the wire and the poller goes
+    round three times; then the sink returns.  Client 2 must be served, and when it leaves nothing of it may remain."""
+    import time as _t
+    from rpyc.core import brine, consts
+    sess = servers.Session("pool", transport, False, 2, opts=["loggate"])
+    W = lambda pred: servers.wait_for(pred, ceiling) is not None   # noqa: E731
+    try:
+        h = sess.backend.log_handler
+        if sess.do("c1:g") != "ok" or sess.do("p1") != "pong":
+            return None                       # the plain case is everybody else's business
+        h.arm()
+        if sess.do("c2:g") != "ok":
+            return None
+        if not h.blocked.wait(3.0):
+            h.open_gate()
+            return None                       # this tree does not log that record: the window cannot be held open this way
+        c2 = sess.clients[2]
+        c2.send_raw(servers.ping_frame(seq=7))
+        _t.sleep(0.35)                        # three rounds of the poller (0.1 s each) with the accept thread held
+        h.open_gate()
+        buf = b""
+        t_end = _t.time() + min(ceiling, 4.0)
+        while _t.time() < t_end and len(buf) < 6:
+            if servers.readable_now(c2.sock):
+                d = c2.sock.recv(4096)
+                if not d:
+                    break
+                buf += d
+            else:
+                _t.sleep(0.005)
+        ok = False
+        try:
+            n = int.from_bytes(buf[:4], "big")
+            msg, seq, _args = brine.load(buf[5:5 + n])
+            ok = msg == consts.MSG_REPLY and seq == 7
+        except Exception:  # noqa
+            ok = False
+        if not ok:
+            return ("client 2 sent its first request while the accept thread was still admitting it (held in the log sink at "
+                    "'Created connection'); the request was never answered (%d bytes came back)" % len(buf),
+                    "C17:pool:admitted-client-never-served")
+        if sess.do("p1") != "pong":
+            return "client 1 is no longer served", "C17:pool:admitted-client-never-served"
+        sess.do("a2")
+
+        def clean():
+            s = _snap(sess)
+            return s["c"] <= 1 and s["f"] <= 1 and s["p"] <= 1 and s["q"] == 0 and s["fds"] <= s["L"] + 1
+        if not W(clean):
+            return ("client 2 has left; with 1 client still connected the server holds %r" % (_snap(sess),),
+                    "C17:pool:residue-after-client-left")
+        hk = lambda: _hooks(sess).get(c2.peer)   # noqa: E731
+        if not W(lambda: hk() is not None and hk()["d"] == hk()["c"] == 1):
+            return "hooks of the departed client 2: %r" % (hk(),), "C17:pool:hook-not-run-once"
+        return None
+    finally:
+        sess.close()
 
 
 def gen_case(r):
@@ -370,6 +446,8 @@ def _hooks(sess):
 def oracle_case(case, known=(), ceiling=servers.CEILING):
     """The property restated on ONE operation sequence, evaluated on the real server only.
     Returns None if it holds, else (description, signature)."""
+    if case.get("kind") == "scenario":
+        return scenario_case(case, ceiling)
     kind = case["server"]
     sess = servers.Session(kind, case["transport"], case["auth"], case["nb"], opts=case.get("opts", ()))
     W = lambda pred: servers.wait_for(pred, ceiling) is not None   # noqa: E731
@@ -583,7 +661,7 @@ def oracle_search(ctx, corr, broken):
     for case in candidates():
         if time.time() > deadline:
             break
-        if not case["ops"] or case in seen:
+        if (not case["ops"] and case.get("kind") != "scenario") or case in seen:
             continue
         seen.append(case)
         res = oracle_twice(case, known)
@@ -592,7 +670,7 @@ def oracle_search(ctx, corr, broken):
         msg, sig = res
         if sig in known:
             continue
-        small = shrink(case, sig, known, 40)
+        small = case if case.get("kind") == "scenario" else shrink(case, sig, known, 40)
         res = oracle_case(small, known)
         if res is not None and res[1] == sig:
             return small, res[0], sig
@@ -618,6 +696,10 @@ def known_probes(ctx):
 
 def replay(case):
     out = dict(case=case)
+    if case.get("kind") == "scenario":
+        res = scenario_case(case)
+        out["oracle"] = "holds" if res is None else dict(failure=res[0], signature=res[1])
+        return out
     try:
         exp = model_lines(case)
     except Exception as ex:  # noqa
